@@ -116,6 +116,22 @@ CLAIMS = {
              "outside the property's alphabet; the table itself has no direction.",
         technique="Coq proof (complete kernel enumeration of the step relation + induction over histories) + translator + exhaustive graph correspondence",
         design="4/C03"),
+    "C05": dict(
+        text="Coq theorems (axiom-free), for an ARBITRARY block function with 16-byte output and hence for AES: protecting a "
+             "plaintext yields GCM ciphertext || first 12 tag bytes with nonce = title || 4-byte counter and AAD = "
+             "security-control byte || authentication key (NIST SP 800-38D written out: GCTR, GHASH, J0); removing protection "
+             "returns the original plaintext for every length, key, title, counter < 2^32 and suite (GCTR involution by "
+             "induction); no data is ever returned unless the received tag equals the GCM tag of the received ciphertext; "
+             "any change confined to the tag is refused with the decryption error; keys not matching the suite, titles that "
+             "are not 8 bytes and texts shorter than a tag are refused. The executable model (Gallina AES-128/256 with "
+             "FIPS-197, NIST-GCM, Green-Book and RFC 3394 vectors checked in the kernel) is compared byte for byte with the "
+             "library's OpenSSL-backed functions on every run, including an exhaustive single-bit-flip/truncation fault "
+             "enumeration of protected texts and of every parameter.",
+        note="Not a theorem (cannot be one): that altering ciphertext, AAD, nonce or key changes the 96-bit tag - GCM's "
+             "unforgeability; the fault enumeration is test evidence. AES itself is validated by vectors and by comparison "
+             "with OpenSSL, not proved invertible; the key-wrap inverse theorem assumes D(E(b)) = b.",
+        technique="Coq proof over an abstract block cipher + byte-exact correspondence with OpenSSL + fault enumeration",
+        design="4/C05"),
     "C19": dict(
         text="Coq theorems (axiom-free) about the model of DlmsClient over the association model: for a block transfer of "
              "two or more blocks of ANY number and sizes (empty blocks included; induction over the block list) GET returns "
